@@ -1405,6 +1405,27 @@ class TLSConnection(TLSRecordLayer):
             self._send_record_limit = size_limit_ext.record_size_limit - 1
             self._recv_record_limit = min(2**14, settings.record_size_limit - 1)
 
+        alpn_ext = encrypted_extensions.getExtension(ExtensionType.alpn)
+        if alpn_ext:
+            if not alpn_ext.protocol_names or \
+                    len(alpn_ext.protocol_names) != 1:
+                for result in self._sendError(
+                        AlertDescription.illegal_parameter,
+                        "Server responded with invalid ALPN extension"):
+                    yield result
+            clnt_alpn_ext = clientHello.getExtension(ExtensionType.alpn)
+            if not clnt_alpn_ext:
+                for result in self._sendError(
+                        AlertDescription.unsupported_extension,
+                        "Server sent ALPN extension without one in "
+                        "client hello"):
+                    yield result
+            if alpn_ext.protocol_names[0] not in clnt_alpn_ext.protocol_names:
+                for result in self._sendError(
+                        AlertDescription.illegal_parameter,
+                        "Server selected ALPN protocol we did not advertise"):
+                    yield result
+
         # if we negotiated PSK then Certificate is not sent
         certificate_request = None
         certificate = None
